@@ -90,4 +90,21 @@ let run inp obs : string option * string option =
             | None -> None)) in
     (spec, mism)
   | _ -> (Some "unparsable C10 case", None)
-let () = Evalreg.register "C10" run
+(* C10X: a proxied client stream the client does not complete *)
+let run_x inp obs : string option * string option =
+  match inp, obs with
+  | ["C10X"; shape; k; how], [msgs; bend; flag] ->
+    let k = int_of_string k in
+    let want = Stdlib.List.init k (fun i -> Printf.sprintf "m%d" i) in
+    let got = if msgs = "-" then [] else String.split_on_char ',' msgs in
+    let rec is_prefix a b = match a, b with [], _ -> true | x :: a', y :: b' -> x = y && is_prefix a' b' | _ -> false in
+    let what = Printf.sprintf "proxied %s stream, %d messages then %s: the backend received [%s] and its stream ended with %s (%s)" shape k how msgs bend flag in
+    if flag = "panic" then (Some ("the server panicked: " ^ what), None)
+    else if flag = "hang" || flag = "backend-stuck" then (Some ("the call did not end: " ^ what), None)
+    else if not (is_prefix got want) then (Some ("messages that were not sent: " ^ what), None)
+    else if how = "close" then
+      (if got = want && bend = "eof" then (None, None) else (Some ("a completed client stream did not reach the backend completely: " ^ what), None))
+    else if bend = "eof" then (Some ("the backend was told the client finished sending although the stream was reset (a direct call ends with an error): " ^ what), None)
+    else (None, None)
+  | _ -> (Some "unparsable C10X case", None)
+let () = Evalreg.register "C10" run; Evalreg.register "C10X" run_x
